@@ -11,7 +11,7 @@ Next == \/ i = 0 /\ i' \in {-b : b \in 1..NB}
 Spec == Init /\ [][Next]_i
 SetOf(q) == {q[k] : k \in 1..Len(q)}
 StEq(a, b) == a.v = b.v /\ a.vq = b.vq /\ a.dflt = b.dflt /\ a.p = b.p /\ a.lst = b.lst /\ a.sset = b.sset /\ a.sup = b.sup
-              /\ a.ea = b.ea /\ a.dr = b.dr /\ a.start = b.start /\ a.sva = b.sva /\ a.svb = b.svb
+              /\ a.dct = b.dct /\ a.ea = b.ea /\ a.dr = b.dr /\ a.start = b.start /\ a.sva = b.sva /\ a.svb = b.svb
 Clauses(c) ==
   LET r == Apply(c.op, c.pre, c.a, c.xs, c.f)
       expexc == IF r.exc = "fault" THEN {c.f.exc, "TraitError"} ELSE {r.exc}
